@@ -41,7 +41,7 @@ static void op_push(int c, int a, int b) { if (nops < MAXOPS) { OPS[nops].code =
 /* pools: kinds and creation priorities of the event slots */
 struct pool { int kind[NSLOT]; int pri[NSLOT]; };
 static const struct pool POOL_C01[] = {
-	{ { K_TIMER, K_TIMER_P, K_TIMER, K_RD_EMPTY_P }, { -1, -1, -1, -1 } },
+	{ { K_TIMER, K_TIMER_P, K_TIMER, K_RD_EMPTY_P }, { 0, -1, 0, -1 } },
 };
 static const struct pool POOL_C02[] = {
 	{ { K_RD_READY, K_TIMER_P, K_SIG_P, K_WR_P }, { -1, -1, -1, -1 } },
@@ -316,7 +316,20 @@ static int64_t block_hook(int64_t timeout_us)
 	if (c == 2) { mc_observe("jump "); MC_COUNT("wake_jump"); return timeout_us + 3600LL * 1000000; }
 	return timeout_us;
 }
-static void postwait(int nready) { (void)nready; iter_reading = vclock_us; }
+static void postwait(int nready)
+{
+	iter_reading = vclock_us;
+	/* the backend reports exactly the registered fds that are ready: a stale or
+	 * missing kernel registration shows up here (each fd object is watched for
+	 * one direction only, so all three backends count fds) */
+	if (!dead) {
+		MC_COUNT("oracle_nready");
+		if (nready != em_ready_fds(&M)) {
+			MSG("the backend wait reported %d ready fds, the model has %d registered fds that are ready", nready, em_ready_fds(&M));
+			FAIL("%s/wait/nready/impl=%d/model=%d", P, nready, em_ready_fds(&M));
+		}
+	}
+}
 
 /* ------------------------------------------------------------------ */
 /* op lists                                                             */
@@ -350,6 +363,7 @@ static void build_ops(void)
 			op_push(O_DEL, i, 0); op_push(O_RMT, i, 0);
 			op_push(O_ACTIVE, i, natural_res(S[i].kind));
 			if (natural_res(S[i].kind) != EV_TIMEOUT) op_push(O_ACTIVE, i, EV_TIMEOUT);
+			op_push(O_LATER, i, EV_WRITE);
 			if (kind_what[S[i].kind] & EV_SIGNAL) op_push(O_ACTIVE, i, EV_SIGNAL | 0x100);     /* ncalls = 2 */
 			op_push(O_PRIO, i, 0); op_push(O_PRIO, i, CFG.npri - 1);
 			if (i == 0) op_push(O_PRIO, i, CFG.npri);       /* out of range */
@@ -364,6 +378,7 @@ static void build_ops(void)
 	} else if (PROP == 3) {
 		for (int i = 0; i < nslots; i++) { op_push(O_ACTIVE, i, EV_READ); op_push(O_LATER, i, EV_WRITE); }
 		op_push(O_ADD, 0, 3); op_push(O_ADD, 3, 4);
+		op_push(O_ADDC, 1, 0); op_push(O_DEL, 1, 0);
 		op_push(O_DEFER, 0, 0);
 		op_push(O_EXIT, -1, 0); op_push(O_EXIT, 4, 0);
 		op_push(O_BREAK, 0, 0); op_push(O_CONT, 0, 0);
